@@ -10,9 +10,8 @@ EXPLANATION = ('Inductive argument over the pipeline, each step a static rule: U
                'subscription returned by actual_subscribe, in every operator and observer method, flows on every path into the subscription '
                'handed back to the caller (returned, appended to a MultiSubscription that the operator returns, or stored in a shared cell '
                'that the operator returns); U2 unsubscribe() of every composite subscription unsubscribes each part; U3 a subscriber\'s '
-               'unsubscribe empties its observer slot; U4 task cancellation is atomic with running (same rule as C19.H3); U5 a late addition '
-               'to an unsubscribed composite is unsubscribed (same rule as C17.K2). Declined: the race between an emitting thread already '
-               'inside next() and unsubscribe on a SubscriberThreads beyond both going through the same cell guard; virtual-time positions '
+               'unsubscribe empties its observer slot; U4 task cancellation is atomic with running (same rule as C19.H3); U6 a shared observer slot delivers only while holding its cell guard, so unsubscribe (same cell) cannot return while a notification is in flight; U5 a late addition '
+               'to an unsubscribed composite is unsubscribed (same rule as C17.K2). Declined: lock-level interleavings beyond U6; virtual-time positions '
                'of the cut are irrelevant to a per-function invariant.')
 ASSUMPTIONS = ['a released resource (emptied slot, cancelled task) delivers nothing: C01.P3, C19.H3']
 
@@ -24,11 +23,12 @@ CONTROLS = [
     'U1|<verif_controls::DropHandleObserver<O, SD> as Observer>::next',
     'U1|<verif_controls::FieldHandleObserver<O, SD> as Observer>::next',
     'U2|<verif_controls::OneSidedUnsub<A, B> as Subscription>::unsubscribe',
+    'U6|<verif_controls::EarlyReleaseSlot<O> as Observer>::complete',
 ]
 
 
 def check(cx):
-    res = u1(cx) + u2(cx) + u3(cx)
+    res = u1(cx) + u2(cx) + u3(cx) + u6(cx)
     for f in c19.h3(cx):
         res.append(Finding(ID, 'U4', f.key, f.ok, f.msg, f.loc, f.witness))
     for f in c17.k2(cx):
@@ -279,4 +279,33 @@ def u3(cx):
         res.append(Finding(ID, 'U3', cx.label(fn), not bad, 'empties the shared observer slot' if not bad else 'unsubscribe does not empty the observer slot: ' + bad[0], fn['span']))
     if n < 2:
         res.append(Finding(ID, 'U3', 'floor', False, 'Subscriber impls not found'))
+    return res
+
+
+def u6(cx):
+    """delivery through a shared slot is serialised with unsubscribe: the downstream call is made while the
+    guard of the slot's cell is held, so unsubscribe() (which takes the same cell) cannot return while a
+    notification is still on its way"""
+    from ..core import lock_scopes
+    res = []
+    n = 0
+    for im in cx.observer_impls():
+        tag = roles.impl_tag(cx, im)
+        shared = tag in ('MutRc<Option<_>>', 'MutArc<Option<_>>') or (cx.control and tag == 'verif_controls::EarlyReleaseSlot')
+        if not shared:
+            continue
+        n += 1
+        for meth in ('next', 'error', 'complete'):
+            fn = cx.method(im, meth)
+            g = cx.graph(fn['key'])
+            held = lock_scopes(g)
+            downs = [x for x in g.nodes if down_method(x) == meth]
+            bad = [x for x in downs if not held[x['id']]]
+            ok = bool(downs) and not bad
+            res.append(Finding(ID, 'U6', cx.label(fn), ok,
+                               'delivers while holding the slot guard' if ok else
+                               'the notification is delivered after the slot guard was released: an unsubscribe() on another thread can return while it is still on its way to the subscriber',
+                               fn['span'], [node_desc(g, x) for x in bad]))
+    if not cx.control and n < 2:
+        res.append(Finding(ID, 'U6', 'floor', False, 'shared slot observer impls not found'))
     return res
